@@ -92,9 +92,9 @@ the command list back; `wf` / `anchored`: the deciders of the hypotheses of the 
 (`Props.C15.wf_decides`) on this history and on the screen the `pre` lines leave behind.
 Operations may carry indentation (`parseIOp`, model `SectionIndent`): `sim_state` / `sim_stream` whether the base model on the indented history
 (`flat`) gives the same sections / the same stream (`indent_simulates`).
-Operations may carry the gate (`parseGOp`, model `SectionGate`): `calm` whether the history is calm, `gate_state` /
-`gate_stream` whether - when it is - the indented history without the suppressed calls (`gflat`) gives the same
-sections / the same stream (`gate_simulates`); `sim_*` and `wf` then speak about that indented history.
+Operations may carry the gate (`parseGOp`, model `SectionGate`): `gate_state` / `gate_stream` whether the indented
+history without the suppressed calls (`gflat`) gives the same sections / the same stream (`gate_simulates`);
+`sim_*` and `wf` speak about that indented history.
 `c15.term {width, bytes}` -> the byte stream lexed and interpreted on an empty screen. -/
 def handle (m : String) (j : Json) : Option (R Json) :=
   match m with
@@ -115,7 +115,6 @@ def handle (m : String) (j : Json) : Option (R Json) :=
       let g0 : GState := { st := st0, cfg := [] }
       let tr := traceG ansi w g0 gops
       let finG := runG ansi w g0 gops
-      let calm := calmG ansi w g0 gops
       let cmds := tr.flatMap (·.1)
       let scr0 := execs w { rows := [], cur := 0 } (pre.map .print)
       let scr := execs w scr0 cmds
@@ -131,9 +130,8 @@ def handle (m : String) (j : Json) : Option (R Json) :=
         ("wf", .bool (wfB w ops)),
         ("sim_state", .bool (base.1 == finI.1.secs)),
         ("sim_stream", .bool (base.2 == finI.2)),
-        ("calm", .bool calm),
-        ("gate_state", .bool (!calm || finG.1.st == finI.1)),
-        ("gate_stream", .bool (!calm || finG.2 == finI.2)),
+        ("gate_state", .bool (finG.1.st == finI.1)),
+        ("gate_stream", .bool (finG.2 == finI.2)),
         ("anchored", .bool (anchoredB scr0)),
         ("stream", jStr (emit fin.2))]
   | "c15.term" => some do
